@@ -87,16 +87,15 @@ def _create_consumer(ctx, consumer_uuid, project, user, consumer_type_id):
         consumer.create()
         created_new_consumer = True
     except exception.ConsumerExists:
-        # Another thread created this consumer already, verify whether
-        # the consumer type matches
-        consumer = consumer_obj.Consumer.get_by_uuid(ctx, consumer_uuid)
-        # If the types don't match, update the consumer record
-        if consumer_type_id != consumer.consumer_type_id:
-            LOG.debug("Supplied consumer type for consumer %s was "
-                      "different than existing record. Updating "
-                      "consumer record.", consumer_uuid)
-            consumer.consumer_type_id = consumer_type_id
-            consumer.update()
+        # Another thread created this consumer already. A different consumer
+        # type is written by update_consumers(), in the same transaction as
+        # the allocations, so that it is rolled back if the write fails.
+        try:
+            consumer = consumer_obj.Consumer.get_by_uuid(ctx, consumer_uuid)
+        except exception.NotFound:
+            # ... and has removed it again because its own write failed.
+            return _create_consumer(
+                ctx, consumer_uuid, project, user, consumer_type_id)
     return consumer, created_new_consumer
 
 
@@ -168,6 +167,15 @@ def ensure_consumer(ctx, consumer_uuid, project_id, user_id,
         # consumer record
         consumer, created_new_consumer = _create_consumer(
             ctx, consumer_uuid, proj, user, cons_type_id)
+        if requires_consumer_generation and not created_new_consumer:
+            # A racing request created the consumer after we found it
+            # missing. The caller stated, with a null consumer generation,
+            # that the consumer does not exist; that is no longer true.
+            raise webob.exc.HTTPConflict(
+                'consumer generation conflict - '
+                'expected %(expected_gen)s but got null' %
+                {'expected_gen': consumer.generation},
+                comment=errors.CONCURRENT_UPDATE)
 
     # Also return the project, user, and consumer type from the request to use
     # for rollbacks.
